@@ -1,6 +1,80 @@
 package props
 
-// CFacts is filled by ctool/cfacts.py (clang JSON AST -> facts).
+import (
+	"encoding/json"
+	"fmt"
+	"os/exec"
+	"path/filepath"
+)
+
+// CFacts is filled by ctool/cfacts.py (clang front end -> facts).
+type CField struct {
+	Path   string `json:"path"`
+	Name   string `json:"name"`
+	Type   string `json:"type"`
+	Offset int    `json:"offset"`
+	Depth  int    `json:"depth"`
+	Bits   []int  `json:"bits"`
+}
+type CRecord struct {
+	Size   int      `json:"size"`
+	Align  int      `json:"align"`
+	Fields []CField `json:"fields"`
+}
+type CMap struct {
+	Type       *int   `json:"type"`
+	MaxEntries *int   `json:"max_entries"`
+	Key        string `json:"key"`
+	Value      string `json:"value"`
+	KeySize    *int   `json:"key_size"`
+	ValueSize  *int   `json:"value_size"`
+}
 type CFacts struct {
-	Raw map[string]any
+	Errors    []string                  `json:"errors"`
+	Warnings  int                       `json:"warnings"`
+	Records   map[string]CRecord        `json:"records"`
+	Enums     map[string]map[string]int `json:"enums"`
+	Maps      map[string]CMap           `json:"maps"`
+	Macros    map[string]int64          `json:"macros"`
+	Functions []string                  `json:"functions"`
+	TopLevel  int                       `json:"top_level_decls"`
+	FuncSrc   map[string]struct {
+		Line int    `json:"line"`
+		Text string `json:"text"`
+	} `json:"func_src"`
+}
+
+// CF runs clang over tproxy.c (through the shim) and returns the facts; any
+// clang error is a check failure.
+func (c *Ctx) CF(rule string, defs ...string) *CFacts {
+	key := fmt.Sprint(defs)
+	if c.cfCache == nil {
+		c.cfCache = map[string]*CFacts{}
+	}
+	if f, ok := c.cfCache[key]; ok {
+		return f
+	}
+	args := append([]string{filepath.Join(c.Dir, "ctool/cfacts.py"), c.Repo, c.Dir}, defs...)
+	out, err := exec.Command("python3", args...).Output()
+	var f CFacts
+	if err != nil {
+		c.R.Check(rule, "clang front end over control/kern/tproxy.c", "-", false, "cfacts.py failed: "+err.Error())
+		c.cfCache[key] = nil
+		return nil
+	}
+	if err := json.Unmarshal(out, &f); err != nil {
+		c.R.Check(rule, "clang front end over control/kern/tproxy.c", "-", false, "cannot decode facts: "+err.Error())
+		c.cfCache[key] = nil
+		return nil
+	}
+	if len(f.Errors) > 0 {
+		c.R.Check(rule, "clang front end over control/kern/tproxy.c", "-", false, "clang reported errors: "+f.Errors[0])
+		c.cfCache[key] = nil
+		return nil
+	}
+	c.R.Extra["c_functions"] = len(f.Functions)
+	c.R.Extra["c_records"] = len(f.Records)
+	c.R.Extra["c_top_level_decls"] = f.TopLevel
+	c.cfCache[key] = &f
+	return &f
 }
